@@ -143,6 +143,13 @@ impl Prop for C01 {
             timeout: Duration::from_secs(180),
             what: "recursive shape x size 2^i, each in its own process on an 8 MiB stack: parse, expr, describe, execute, drop".into(),
         });
+        stages.push(Stage {
+            name: "long-tokens".into(),
+            len: long_token_inputs(tier.pick(14, 17)).len() as u64,
+            chunk: 200,
+            timeout: Duration::from_secs(600),
+            what: "one long token per input: 33 shapes (digit runs, fractions with many zeros, names, strings, operator-character runs, whitespace runs, separators) at every length 1..70 and at 2^k-1, 2^k, 2^k+1".into(),
+        });
         let sw = sweeps(tier);
         Plan {
             stages,
@@ -190,6 +197,25 @@ impl Prop for C01 {
                 out.idx = Some(i);
                 let s = ts.spaced(i);
                 check_string(&s, "tokens", out);
+            }
+            out.count("states", b - a);
+            out.count("transitions", b - a);
+            return;
+        }
+        if stage == sw.len() + 2 {
+            let inputs = long_token_inputs(tier.pick(14, 17));
+            for i in a..b {
+                out.idx = Some(i);
+                let (name, text) = &inputs[i as usize];
+                // (the text can be 100 kB: the case is named by its shape and size)
+                let mut tmp = WorkerOut::default();
+                check_string(text, "long-tokens", &mut tmp);
+                let fails = std::mem::take(&mut tmp.fails);
+                out.merge(tmp);
+                for (k, (f, _)) in fails {
+                    out.fail(k, format!("long-tokens|{}", name), f.detail.chars().take(300).collect::<String>());
+                }
+                out.nontrivial.insert(hash64(name));
             }
             out.count("states", b - a);
             out.count("transitions", b - a);
@@ -251,6 +277,9 @@ impl Prop for C01 {
         if stage == sw.len() {
             return show(&token_seqs(tier).spaced(i));
         }
+        if stage == sw.len() + 2 {
+            return long_token_inputs(tier.pick(14, 17))[i as usize].0.clone();
+        }
         let (shape, n) = ladder_cases(tier)[i as usize];
         format!("{} n={}", shape, n)
     }
@@ -258,6 +287,9 @@ impl Prop for C01 {
         let sw = sweeps(tier);
         if stage <= sw.len() {
             return format!("{}:sweep-string", how);
+        }
+        if stage == sw.len() + 2 {
+            return format!("{}:long-token:{}", how, long_token_inputs(tier.pick(14, 17))[i as usize].0.split(' ').next().unwrap_or(""));
         }
         let (shape, n) = ladder_cases(tier)[i as usize];
         let class = if n >= DEEP { format!("deep(n>={})", DEEP) } else { format!("shallow(n<{})", DEEP) };
